@@ -94,9 +94,9 @@ def codeOk (b : AbiBuffer) (code : Nat) : Prop :=
 /-- side conditions of a shape -/
 def swOk (p : SWP) : SWShape → Prop
   | .closed => True
-  | .idle _ gd hdn kept _ _ => (gd = true → hdn = true) ∧ (∀ b, kept = some b → p.okBuf b)
-  | .ready _ gd hdn b _ _ => (gd = true → hdn = true) ∧ p.okBuf b
-  | .allNew _ _ _ gd hdn _ _ => (gd = true → hdn = true)
+  | .idle _ gd hdn kept _ _ => (gd = true ↔ hdn = true) ∧ (∀ b, kept = some b → p.okBuf b)
+  | .ready _ gd hdn b _ _ => (gd = true ↔ hdn = true) ∧ p.okBuf b
+  | .allNew _ _ _ gd hdn _ _ => (gd = true ↔ hdn = true)
   | .running _ _ b gs gd hdn _ _ => (gd = true → hdn = true) ∧ p.okBuf b ∧ b.remaining ≠ 0 ∧ (hdn = true → gd = true) ∧ (gs = true → gd = true)
   | .waiting _ _ b pr pend _ =>
     p.okBuf b ∧ pr ≤ offerOf b ∧
@@ -109,15 +109,8 @@ def SWInvAt (p : SWP) (s : ChanSys) (sh : SWShape) : Prop := s = swSys p sh ∧ 
 def SWInv (p : SWP) (s : ChanSys) : Prop :=
   p.hd ≠ 0 ∧ (p.v = 1 ∨ p.v = 2) ∧ ∃ sh, SWInvAt p s sh
 
-/-- the extra hypothesis of the `_partial` theorem: the body does not start an operation on an end
-whose peer it has been told is gone (the host's end is done) unless the runtime knows (its `done` flag
-keeps the call away from the host) -/
-def NoUseAfterDropped (s : ChanSys) : CLabel → Prop
-  | .poll _ => s.g.offer.isSome = true → s.h.e.st ≠ .done
-  | _ => True
-
 def SWLegal (p : SWP) (s : ChanSys) (l : CLabel) : Prop :=
-  CLegal s l ∧ NoUseAfterDropped s l ∧ (∀ h1 h2, l = .opn h1 h2 → h1 = p.hd)
+  CLegal s l ∧ (∀ h1 h2, l = .opn h1 h2 → h1 = p.hd)
 
 /-- the values of the live buffer the host has not taken yet, in order: the window of the buffer of the write in
 flight beyond what the host has taken in this operation (its `progress` while it is copying; the count of the
@@ -181,7 +174,7 @@ theorem swUpdate_blocked (p : WSt) : streamWriteUpdate p 4294967295 = .ok (.inr 
 @[simp] theorem pack1_div (k : Nat) : (1 + 16 * k) / 16 = k := by omega
 @[simp] theorem pack2_div (k : Nat) : (2 + 16 * k) / 16 = k := by omega
 
-theorem swUpdate_dropped0 (p : WSt) : streamWriteUpdate p 1 = .ok (.inl (.dropped, p)) [] := by
+theorem swUpdate_dropped0 (p : WSt) : streamWriteUpdate p 1 = .ok (.inl (.dropped, { p with wr := { p.wr with done := true } })) [] := by
   simp [streamWriteUpdate, RetCode.decode]
 
 theorem swUpdate_cancelled0 (p : WSt) : streamWriteUpdate p 2 = .ok (.inl (.cancelled, p)) [] := by
@@ -347,15 +340,14 @@ macro_rules
     `(tactic| (sw_eval; all_goals (first | sw_try $a | sw_try $b | sw_try $c | sw_try $d | sw_try $e | skip)))
 
 macro "sw_legal" : tactic => `(tactic|
-  simp (config := { decide := true }) [CLegal, NoUseAfterDropped, swSys, swHost, stOf, offerOf, SWP.g0, SWP.t, SWP.task, OpK.act,
+  simp (config := { decide := true }) [CLegal, swSys, swHost, stOf, offerOf, SWP.g0, SWP.t, SWP.task, OpK.act,
     GChan.offer, GChan.cancels, wstOffer, WOp.cancelAsks, WOp.new,
     Host.End.legalXfer, Host.End.legalPeerDrop, Host.End.copyTrap, Host.End.cancelTrap,
     Host.codeBase, Host.codeCount, Host.DROPPED, Host.COMPLETED, Host.CANCELLED, Host.End.stAfter, Host.packCode, Host.BLOCKED] at *)
 
 theorem sw_closed (p : SWP) (hh : p.hd ≠ 0) (hv : p.v = 1 ∨ p.v = 2) (l : CLabel)
     (hl : SWLegal p (swSys p .closed) l) : SWGood p (swSys p .closed) ((swSys p .closed).step l) := by
-  obtain ⟨hl, hn, hopn⟩ := hl
-  clear hn
+  obtain ⟨hl, hopn⟩ := hl
   cases l with
   | opn h1 h2 =>
     have := hopn h1 h2 rfl
@@ -377,8 +369,8 @@ theorem sw_idle (p : SWP) (n : Nat) (gd hdn : Bool) (kept : Option AbiBuffer) (w
     (hl : SWLegal p (swSys p (.idle n gd hdn kept win rcv)) l) : SWGood p (swSys p (.idle n gd hdn kept win rcv)) ((swSys p (.idle n gd hdn kept win rcv)).step l) := by
   simp only [swOk] at hok
   obtain ⟨hgd, hkb⟩ := hok
-  obtain ⟨hl, hn, hopn⟩ := hl
-  clear hn hopn
+  obtain ⟨hl, hopn⟩ := hl
+  clear hopn
   cases l with
   | peerXfer k => cases hdn <;> sw_legal
   | deliver => sw_legal
@@ -429,7 +421,7 @@ theorem sw_ready (p : SWP) (n : Nat) (gd hdn : Bool) (b : AbiBuffer) (win rcv : 
     (hl : SWLegal p (swSys p (.ready n gd hdn b win rcv)) l) : SWGood p (swSys p (.ready n gd hdn b win rcv)) ((swSys p (.ready n gd hdn b win rcv)).step l) := by
   simp only [swOk] at hok
   obtain ⟨hgd, hb⟩ := hok
-  obtain ⟨hl, hn, hopn⟩ := hl
+  obtain ⟨hl, hopn⟩ := hl
   clear hopn
   cases l with
   | peerXfer k => cases hdn <;> sw_legal
@@ -438,32 +430,32 @@ theorem sw_ready (p : SWP) (n : Nat) (gd hdn : Bool) (b : AbiBuffer) (win rcv : 
   | poll ans =>
     cases gd with
     | true =>
-      clear hl hn
+      clear hl
       sw_go [.idle n true true (some b) b.window rcv]
     | false =>
       have hdn0 : hdn = false := by cases hdn <;> sw_legal
       subst hdn0
       have hli : (swSys p (.ready n false false b win rcv)).h.e.legalImmediate (offerOf b) ans = true := by
         sw_legal; exact hl
-      clear hl hn
+      clear hl
       rcases legalImmediate_stream _ _ _ rfl hli with rfl | rfl | ⟨k, rfl, hk, hk1⟩
       · clear hli; rcases hv with hv | hv <;> sw_go [.waiting n .plain b 0 none rcv]
-      · clear hli; sw_go [.idle n false true (some b) b.window rcv]
+      · clear hli; sw_go [.idle n true true (some b) b.window rcv]
       · clear hli
         obtain ⟨hb', hkr, hk2⟩ := okBuf_advance p b k hb hk
         have hu := streamWrite_update_spec ⟨b, ⟨p.hd, false⟩⟩ 0 k (by omega) hkr hk2 hb.2.2
         simp only [Host.packCode, Nat.zero_add] at hu
         simp only [Host.COMPLETED]
         sw_go [.idle n false false (some { b with cursor := b.cursor + k }) b.window (rcv ++ b.window.take k)]
-  | close ex ans => clear hl hn; cases ex <;> cases hdn <;> sw_go [.gone n .idle win rcv, .gone n .done win rcv]
-  | peerDrop => clear hl hn; cases hdn <;> sw_go [.ready n gd false b win rcv, .ready n gd true b win rcv]
-  | _ => clear hl hn; sw_go [.ready n gd hdn b win rcv, .idle n gd hdn (some b) win rcv, .idle n gd hdn none win rcv]
+  | close ex ans => clear hl; cases ex <;> cases hdn <;> sw_go [.gone n .idle win rcv, .gone n .done win rcv]
+  | peerDrop => clear hl; cases hdn <;> sw_go [.ready n gd false b win rcv, .ready n gd true b win rcv]
+  | _ => clear hl; sw_go [.ready n gd hdn b win rcv, .idle n gd hdn (some b) win rcv, .idle n gd hdn none win rcv]
 
 /-- the outcome of `in_progress_update` for a code the buffer can absorb -/
 theorem swUpdate_ok (p : SWP) (b : AbiBuffer) (base k : Nat) (hb : p.okBuf b) (hbase : base = 0 ∨ base = 1)
     (hk : k ≤ offerOf b) :
     streamWriteUpdate ⟨b, ⟨p.hd, false⟩⟩ (base + 16 * k) =
-      .ok (.inl (sresOf base k, ⟨{ b with cursor := b.cursor + k }, ⟨p.hd, base == 1 && k != 0⟩⟩))
+      .ok (.inl (sresOf base k, ⟨{ b with cursor := b.cursor + k }, ⟨p.hd, base == 1⟩⟩))
         (if b.kind = .lists then (b.window.take k).map (evDli b.c) else []) := by
   obtain ⟨_, hkr, hk2⟩ := okBuf_advance p b k hb hk
   have hu := streamWrite_update_spec ⟨b, ⟨p.hd, false⟩⟩ base k (by omega) hkr hk2 hb.2.2
@@ -472,7 +464,7 @@ theorem swUpdate_ok (p : SWP) (b : AbiBuffer) (base k : Nat) (hb : p.okBuf b) (h
 theorem swUpdate_ok3 (p : SWP) (b : AbiBuffer) (base k : Nat) (hb : p.okBuf b) (hbase : base < 3)
     (hk : k ≤ offerOf b) :
     streamWriteUpdate ⟨b, ⟨p.hd, false⟩⟩ (base + 16 * k) =
-      .ok (.inl (sresOf base k, ⟨{ b with cursor := b.cursor + k }, ⟨p.hd, base == 1 && k != 0⟩⟩))
+      .ok (.inl (sresOf base k, ⟨{ b with cursor := b.cursor + k }, ⟨p.hd, base == 1⟩⟩))
         (if b.kind = .lists then (b.window.take k).map (evDli b.c) else []) := by
   obtain ⟨_, hkr, hk2⟩ := okBuf_advance p b k hb hk
   have hu := streamWrite_update_spec ⟨b, ⟨p.hd, false⟩⟩ base k hbase hkr hk2 hb.2.2
@@ -492,7 +484,7 @@ theorem sw_allNew (p : SWP) (n : Nat) (one : Bool) (items : List Nat) (gd hdn : 
     (hl : SWLegal p (swSys p (.allNew n one items gd hdn win rcv)) l) :
     SWGood p (swSys p (.allNew n one items gd hdn win rcv)) ((swSys p (.allNew n one items gd hdn win rcv)).step l) := by
   simp only [swOk] at hok
-  obtain ⟨hl, hn, hopn⟩ := hl
+  obtain ⟨hl, hopn⟩ := hl
   clear hopn
   have hb := new_okBuf p items
   cases l with
@@ -502,17 +494,17 @@ theorem sw_allNew (p : SWP) (n : Nat) (one : Bool) (items : List Nat) (gd hdn : 
   | poll ans =>
     cases gd with
     | true =>
-      clear hl hn
+      clear hl
       cases one <;> sw_go [.idle n true true none items rcv]
     | false =>
       have hdn0 : hdn = false := by cases hdn <;> sw_legal
       subst hdn0
       have hli : (swSys p (.allNew n one items false false win rcv)).h.e.legalImmediate (offerOf (AbiBuffer.new p.c p.kind items).1) ans = true := by
         sw_legal; exact hl
-      clear hl hn
+      clear hl
       rcases legalImmediate_stream _ _ _ rfl hli with rfl | rfl | ⟨k, rfl, hk, hk1⟩
       · clear hli; rcases hv with hv | hv <;> sw_go [.waiting n (.all one true) (AbiBuffer.new p.c p.kind items).1 0 none rcv]
-      · clear hli; cases one <;> sw_go [.idle n false true none items rcv]
+      · clear hli; cases one <;> sw_go [.idle n true true none items rcv]
       · clear hli
         obtain ⟨hb', hkr, hk2⟩ := okBuf_advance p _ k hb hk
         have hu := swUpdate_ok p _ 0 k hb (.inl rfl) hk
@@ -523,9 +515,9 @@ theorem sw_allNew (p : SWP) (n : Nat) (one : Bool) (items : List Nat) (gd hdn : 
         · cases one <;>
             sw_go [.running n false { (AbiBuffer.new p.c p.kind items).1 with items := items, cursor := k } false false false items (rcv ++ items.take k),
                    .running n true { (AbiBuffer.new p.c p.kind items).1 with items := items, cursor := k } false false false items (rcv ++ items.take k)]
-  | close ex ans => clear hl hn; cases ex <;> cases hdn <;> sw_go [.gone n .idle win rcv, .gone n .done win rcv]
-  | peerDrop => clear hl hn; cases hdn <;> sw_go [.allNew n one items gd false win rcv, .allNew n one items gd true win rcv]
-  | _ => clear hl hn; sw_go [.allNew n one items gd hdn win rcv, .idle n gd hdn none win rcv]
+  | close ex ans => clear hl; cases ex <;> cases hdn <;> sw_go [.gone n .idle win rcv, .gone n .done win rcv]
+  | peerDrop => clear hl; cases hdn <;> sw_go [.allNew n one items gd false win rcv, .allNew n one items gd true win rcv]
+  | _ => clear hl; sw_go [.allNew n one items gd hdn win rcv, .idle n gd hdn none win rcv]
 
 theorem sw_running (p : SWP) (n : Nat) (one : Bool) (b : AbiBuffer) (gs gd hdn : Bool) (win rcv : List Nat)
     (hh : p.hd ≠ 0) (hv : p.v = 1 ∨ p.v = 2) (hok : swOk p (.running n one b gs gd hdn win rcv)) (l : CLabel)
@@ -533,8 +525,8 @@ theorem sw_running (p : SWP) (n : Nat) (one : Bool) (b : AbiBuffer) (gs gd hdn :
     SWGood p (swSys p (.running n one b gs gd hdn win rcv)) ((swSys p (.running n one b gs gd hdn win rcv)).step l) := by
   simp only [swOk] at hok
   obtain ⟨hgd, hb, hrem, hdg, hgs⟩ := hok
-  obtain ⟨hl, hn, hopn⟩ := hl
-  clear hopn hn
+  obtain ⟨hl, hopn⟩ := hl
+  clear hopn
   cases l with
   | poll ans =>
     cases gd with
@@ -553,7 +545,7 @@ theorem sw_running (p : SWP) (n : Nat) (one : Bool) (b : AbiBuffer) (gs gd hdn :
       clear hl
       rcases legalImmediate_stream _ _ _ rfl hli with rfl | rfl | ⟨k, rfl, hk, hk1⟩
       · clear hli; rcases hv with hv | hv <;> sw_go [.waiting n (.all one false) b 0 none rcv]
-      · clear hli; cases one <;> sw_go [.idle n false true none b.window rcv]
+      · clear hli; cases one <;> sw_go [.idle n true true none b.window rcv]
       · clear hli
         obtain ⟨hb', hkr, hk2⟩ := okBuf_advance p b k hb hk
         have hu := swUpdate_ok p b 0 k hb (.inl rfl) hk
@@ -663,7 +655,7 @@ theorem sw_waiting_plain_end0 (p : SWP) (n : Nat) (b : AbiBuffer) (rcv : List Na
     rcases (by omega : base = 0 ∨ base = 1 ∨ base = 2) with rfl | rfl | rfl <;> simp only [Nat.zero_add, Nat.mul_zero, Nat.add_zero] at hu <;>
       rcases hv with hv | hv <;>
       sw_go [.idle n false false (some { b with cursor := b.cursor + 0 }) b.window rcv,
-             .idle n false true (some { b with cursor := b.cursor + 0 }) b.window rcv]
+             .idle n true true (some { b with cursor := b.cursor + 0 }) b.window rcv]
   · -- cancel, `j > 0` items moved in the race
     have hj0 : j ≠ 0 := by omega
     rcases (by omega : base = 0 ∨ base = 1 ∨ base = 2) with rfl | rfl | rfl <;> (try simp only [Nat.zero_add] at hu) <;>
@@ -673,7 +665,7 @@ theorem sw_waiting_plain_end0 (p : SWP) (n : Nat) (b : AbiBuffer) (rcv : List Na
   · -- drop, nothing moved
     rcases (by omega : base = 0 ∨ base = 1 ∨ base = 2) with rfl | rfl | rfl <;> simp only [Nat.zero_add, Nat.mul_zero, Nat.add_zero] at hu <;>
       rcases hv with hv | hv <;>
-      sw_go [.idle n false false none b.window rcv, .idle n false true none b.window rcv]
+      sw_go [.idle n false false none b.window rcv, .idle n true true none b.window rcv]
   · have hj0 : j ≠ 0 := by omega
     rcases (by omega : base = 0 ∨ base = 1 ∨ base = 2) with rfl | rfl | rfl <;> (try simp only [Nat.zero_add] at hu) <;>
       rcases hv with hv | hv <;>
@@ -709,7 +701,7 @@ theorem sw_waiting_all_end0 (p : SWP) (n : Nat) (one first : Bool) (b : AbiBuffe
     rcases Nat.eq_zero_or_pos j with rfl | hjp
   · rcases (by omega : base = 0 ∨ base = 1 ∨ base = 2) with rfl | rfl | rfl <;> simp only [Nat.mul_zero, Nat.add_zero] at hu <;>
       rcases hv with hv | hv <;>
-      sw_go [.idle n false false none b.window rcv, .idle n false true none b.window rcv]
+      sw_go [.idle n false false none b.window rcv, .idle n true true none b.window rcv]
   · have hj0 : j ≠ 0 := by omega
     rcases (by omega : base = 0 ∨ base = 1 ∨ base = 2) with rfl | rfl | rfl <;> (try simp only [Nat.zero_add] at hu) <;>
       rcases hv with hv | hv <;>
@@ -738,7 +730,7 @@ theorem sw_waiting_end1 (p : SWP) (n : Nat) (k : OpK) (b : AbiBuffer) (pr base :
       subst this; clear hl
       rcases hbase with rfl | rfl <;> (try simp only [Nat.zero_add] at hu) <;> rcases hv with hv | hv <;>
         sw_go [.idle n false false (some { b with cursor := b.cursor + pr }) b.window rcv,
-               .idle n (pr != 0) true (some { b with cursor := b.cursor + pr }) b.window rcv]
+               .idle n true true (some { b with cursor := b.cursor + pr }) b.window rcv]
     | all one first =>
       clear hl
       rcases hbase with rfl | rfl <;> rcases hv with hv | hv <;>
@@ -749,10 +741,10 @@ theorem sw_waiting_end1 (p : SWP) (n : Nat) (k : OpK) (b : AbiBuffer) (pr base :
     cases k with
     | plain =>
       rcases hbase with rfl | rfl <;> (try simp only [Nat.zero_add] at hu) <;> rcases hv with hv | hv <;>
-        sw_go [.idle n false false none b.window rcv, .idle n (pr != 0) true none b.window rcv]
+        sw_go [.idle n false false none b.window rcv, .idle n true true none b.window rcv]
     | all one first =>
       rcases hbase with rfl | rfl <;> (try simp only [Nat.zero_add] at hu) <;> rcases hv with hv | hv <;>
-        sw_go [.idle n false false none b.window rcv, .idle n (pr != 0) true none b.window rcv]
+        sw_go [.idle n false false none b.window rcv, .idle n true true none b.window rcv]
   · have : a = base + 16 * pr := by
       rcases hbase with rfl | rfl <;> cases k <;> sw_legal <;> simp_all [Host.End.legalCancelRet]
     subst this; clear hl
@@ -769,8 +761,8 @@ theorem sw_waiting (p : SWP) (n : Nat) (k : OpK) (b : AbiBuffer) (pr : Nat) (pen
     (hl : SWLegal p (swSys p (.waiting n k b pr pend rcv)) l) :
     SWGood p (swSys p (.waiting n k b pr pend rcv)) ((swSys p (.waiting n k b pr pend rcv)).step l) := by
   obtain ⟨hb, hpr, hp⟩ := (swOk_waiting_iff p n k b pr pend rcv).mp hok
-  obtain ⟨hl, hn, hopn⟩ := hl
-  clear hopn hn
+  obtain ⟨hl, hopn⟩ := hl
+  clear hopn
   have hend : ∀ l', l' = l → ((∃ a, l' = .cancel a) ∨ (∃ a, l' = .dropOp a) ∨ (∃ ex a, l' = .close ex a)) →
       SWGood p (swSys p (.waiting n k b pr pend rcv)) ((swSys p (.waiting n k b pr pend rcv)).step l') := by
     intro l' hll hk'
@@ -813,8 +805,8 @@ theorem sw_queued (p : SWP) (n : Nat) (k : OpK) (b : AbiBuffer) (code : Nat) (rc
     SWGood p (swSys p (.queued n k b code rcv)) ((swSys p (.queued n k b code rcv)).step l) := by
   simp only [swOk] at hok
   obtain ⟨hb, base, j, rfl, hbase, hj⟩ := hok
-  obtain ⟨hl, hn, hopn⟩ := hl
-  clear hopn hn
+  obtain ⟨hl, hopn⟩ := hl
+  clear hopn
   have hbase' : base = 0 ∨ base = 1 := hbase
   have hu := swUpdate_ok3 p b base j hb (by rcases hbase' with rfl | rfl <;> omega) hj
   obtain ⟨hb', _, _⟩ := okBuf_advance p b j hb hj
@@ -829,14 +821,14 @@ theorem sw_queued (p : SWP) (n : Nat) (k : OpK) (b : AbiBuffer) (code : Nat) (rc
     | plain =>
       rcases hbase' with rfl | rfl <;> (try simp only [Nat.zero_add] at hu) <;> rcases hv with hv | hv <;>
         sw_go [.idle n false false (some { b with cursor := b.cursor + j }) b.window rcv,
-               .idle n (j != 0) true (some { b with cursor := b.cursor + j }) b.window rcv]
+               .idle n true true (some { b with cursor := b.cursor + j }) b.window rcv]
     | all one first =>
       by_cases hr : b.items.length - (b.cursor + j) = 0
       · rcases hbase' with rfl | rfl <;> (try simp only [Nat.zero_add] at hu) <;>
           rcases Nat.eq_zero_or_pos j with rfl | hjp <;> (try have hj0 : j ≠ 0 := by omega) <;>
           (try simp only [Nat.add_zero] at hr hb') <;>
           cases one <;> cases first <;> rcases hv with hv | hv <;>
-          sw_go [.idle n false false none b.window rcv, .idle n false true none b.window rcv, .idle n true true none b.window rcv]
+          sw_go [.idle n false false none b.window rcv, .idle n true true none b.window rcv, .idle n true true none b.window rcv]
       · rcases hbase' with rfl | rfl <;> (try simp only [Nat.zero_add] at hu) <;>
           rcases Nat.eq_zero_or_pos j with rfl | hjp <;> (try have hj0 : j ≠ 0 := by omega) <;>
           (try simp only [Nat.add_zero] at hr hb') <;>
@@ -845,7 +837,7 @@ theorem sw_queued (p : SWP) (n : Nat) (k : OpK) (b : AbiBuffer) (code : Nat) (rc
                  .running n true { b with cursor := b.cursor + j } false false false b.window rcv,
                  .running n false { b with cursor := b.cursor + j } false true true b.window rcv,
                  .running n true { b with cursor := b.cursor + j } false true true b.window rcv,
-                 .idle n false true none b.window rcv] <;>
+                 .idle n true true none b.window rcv] <;>
           (first | sw_try (.running n false { b with cursor := b.cursor } false false false b.window rcv)
                  | sw_try (.running n true { b with cursor := b.cursor } false false false b.window rcv))
   | cancel a =>
@@ -854,7 +846,7 @@ theorem sw_queued (p : SWP) (n : Nat) (k : OpK) (b : AbiBuffer) (code : Nat) (rc
     | plain =>
       rcases hbase' with rfl | rfl <;> (try simp only [Nat.zero_add] at hu) <;> rcases hv with hv | hv <;>
         sw_go [.idle n false false (some { b with cursor := b.cursor + j }) b.window rcv,
-               .idle n (j != 0) true (some { b with cursor := b.cursor + j }) b.window rcv]
+               .idle n true true (some { b with cursor := b.cursor + j }) b.window rcv]
     | all one first =>
       have hc0 : codeOk b (16 * j) := ⟨0, j, by simp [Host.packCode], .inl rfl, hj⟩
       have hc1 : codeOk b (1 + 16 * j) := ⟨1, j, by simp [Host.packCode], .inr rfl, hj⟩
@@ -863,7 +855,7 @@ theorem sw_queued (p : SWP) (n : Nat) (k : OpK) (b : AbiBuffer) (code : Nat) (rc
   | dropOp a =>
     clear hl
     cases k <;> rcases hbase' with rfl | rfl <;> (try simp only [Nat.zero_add] at hu) <;> rcases hv with hv | hv <;>
-      sw_go [.idle n false false none b.window rcv, .idle n (j != 0) true none b.window rcv]
+      sw_go [.idle n false false none b.window rcv, .idle n true true none b.window rcv]
   | close ex a =>
     clear hl
     cases k <;> rcases hbase' with rfl | rfl <;> (try simp only [Nat.zero_add] at hu) <;> cases ex <;> rcases hv with hv | hv <;>
@@ -885,8 +877,8 @@ theorem sw_gone (p : SWP) (n : Nat) (st : CopySt) (win rcv : List Nat) (hh : p.h
     (hl : SWLegal p (swSys p (.gone n st win rcv)) l) : SWGood p (swSys p (.gone n st win rcv)) ((swSys p (.gone n st win rcv)).step l) := by
   simp only [swOk] at hok
   have hst : st = .idle ∨ st = .done := by cases st <;> simp at hok ⊢
-  obtain ⟨hl, hn, hopn⟩ := hl
-  clear hopn hn
+  obtain ⟨hl, hopn⟩ := hl
+  clear hopn
   cases l with
   | deferStart ans => sw_legal
   | peerXfer k => rcases hst with rfl | rfl <;> sw_legal
